@@ -459,3 +459,55 @@ func openPredicates(p *core.Prog, pkg string, atoms []core.Atom) [][]core.Atom {
 	}
 	return out
 }
+
+// xpath is a return path of a function after tail calls of module helpers have been opened.
+type xpath struct {
+	Atoms   []core.Atom
+	Results []*core.Term
+	Ret     *ssa.Return
+	Path    string
+}
+
+// expandedReturnPaths enumerates the return paths of f; where f returns exactly the results of a call of a module helper
+// (`return helper(x, y)`), the helper's own return paths take its place, their conditions and results lifted into f's vocabulary.
+func expandedReturnPaths(p *core.Prog, f *ssa.Function, depth int) []xpath {
+	rps, _ := core.ReturnPaths(p, f, 5000)
+	var out []xpath
+	for _, rp := range rps {
+		if rp.Ret.Block().Comment == "recover" {
+			continue
+		}
+		var site *ssa.Call
+		tail := len(rp.Results) > 0 && depth < 3
+		for i, r := range rp.Results {
+			if r.Op != "extract" || r.Name != fmt.Sprint(i) || len(r.Args) != 1 || r.Args[0].Op != "call" {
+				tail = false
+				break
+			}
+			cs, ok := r.Args[0].Val.(*ssa.Call)
+			if !ok || (site != nil && cs != site) {
+				tail = false
+				break
+			}
+			site = cs
+		}
+		if tail && site != nil {
+			if h := site.Common().StaticCallee(); h != nil && core.InModule(h) && len(h.Blocks) > 0 && h.Signature.Results().Len() == len(rp.Results) {
+				for _, hx := range expandedReturnPaths(p, h, depth+1) {
+					x := xpath{Ret: rp.Ret, Path: rp.Path.String() + "→" + core.FuncName(h) + ":" + hx.Path}
+					x.Atoms = append(x.Atoms, rp.Atoms...)
+					for _, a := range hx.Atoms {
+						x.Atoms = append(x.Atoms, core.Atom{Cond: liftWithEnv(rp.Env, a.Cond, site), Sign: a.Sign, Block: site.Block()})
+					}
+					for _, r := range hx.Results {
+						x.Results = append(x.Results, liftWithEnv(rp.Env, r, site))
+					}
+					out = append(out, x)
+				}
+				continue
+			}
+		}
+		out = append(out, xpath{Atoms: rp.Atoms, Results: rp.Results, Ret: rp.Ret, Path: rp.Path.String()})
+	}
+	return out
+}
